@@ -31,3 +31,10 @@ package token
 //@   ensures implies(err != nil, tok == nil)
 //@   modifies nothing
 //@   allocates
+
+// the claims the handler sees are the signed ones exactly: numbers are decoded as json.Number (no float64 rounding of
+// integers beyond 2^53), i.e. the JWT parser is built with exactly the WithJSONNumber option
+//@ func newParser
+//@   property C18
+//@   ghost at after WithJSONNumber#0: jn = ret
+//@   call NewParser#0: assert arg0 == jn
